@@ -13,7 +13,7 @@ def free_port():
 
 class Server:
     def __init__(self, root, threads=4, lane="rel", env=None, args=None, trace=False, strace=False, config_file=None,
-                 port=None, ip="127.0.0.1", use_default_args=True, mixed_app=False, virtual_time=False):
+                 port=None, ip="127.0.0.1", use_default_args=True, mixed_app=False, virtual_time=False, nofile=None):
         """mixed_app: instead of the shipped binary, the harness runs the same accept loop (Server::run) and pool with an
         application that fails on demand (target contains __panic / __panic_long / __panic_any / __err / __slow)"""
         self.root, self.threads, self.lane = root, threads, lane
@@ -55,7 +55,13 @@ class Server:
         self.argv = argv
         self.out = open(self.out_path, "wb")
         self.err = open(self.err_path, "wb")
-        self.proc = subprocess.Popen(argv, cwd=root, env=e, stdout=self.out, stderr=self.err, stdin=subprocess.DEVNULL)
+        pre = None
+        if nofile:
+            # a small descriptor limit: accept() and open() start failing with EMFILE under a burst of connections
+            def pre():
+                import resource
+                resource.setrlimit(resource.RLIMIT_NOFILE, (nofile, nofile))
+        self.proc = subprocess.Popen(argv, cwd=root, env=e, stdout=self.out, stderr=self.err, stdin=subprocess.DEVNULL, preexec_fn=pre)
         self.started = self._wait_ready()
 
     def _wait_ready(self, timeout=15.0):
